@@ -37,6 +37,16 @@ func init() {
 	judges["ws-test-cfg"] = func(r *Run) []Finding { return onlyRules(judges["ws-test"](r), cfgRules...) }
 	judges["ws-traffic-cfg"] = func(r *Run) []Finding { return onlyRules(judges["ws-traffic"](r), cfgRules...) }
 	judges["ws-baseline"] = func(r *Run) []Finding { return nil }
+	judges["ws-badcred"] = func(r *Run) []Finding {
+		var fs []Finding
+		for _, e := range r.Events {
+			if e.Ev == "ul" && strings.HasSuffix(e.Label, "AuthenticationResponse") {
+				c := r.Scn.Config
+				fs = addFinding(fs, "cfg.malformed-credential-used@UplinkNASTransport/AuthenticationResponse", fmt.Sprintf("the emulator answered the challenge although the configured credentials are not 128-bit values (k=%q opc=%q op=%q): something other than the configured value reached the key derivation", c.K, c.OPC, c.OP), e.UE)
+			}
+		}
+		return fs
+	}
 	judges["ws-reject"] = func(r *Run) []Finding { return onlyRules(ruleFindings(r), "prereq.", "psi.") }
 	judges["ws-dial"] = func(r *Run) []Finding {
 		var fs []Finding
@@ -132,7 +142,12 @@ func checkC01(c *Ctx) {
 	for i := 0; i < nMulti; i++ {
 		mj = append(mj, multiJobs(rm, 1, multiOpts{profile: "c01-multi", viaCreate: i%2 == 0, roamers: true, ownCreds: true, latency: "swarm-fast"}, "ps-multi", "c01-multi")...)
 	}
+	mj = append(mj, reregJobs(rm.Sub("rereg"), nMulti/3, "c01-rereg", "ps-multi", "c01-rereg")...)
 	c.Batch(mj, func(j Job, r *Run, fs []Finding) {
+		if j.Tag == "c01-rereg" {
+			c.Probes["register-deregister-register-again runs"]++
+			return
+		}
 		c.Probes["multi-subscriber-procedure-runs"]++
 		for _, sub := range j.S.Subscribers[1:] {
 			if !strings.HasPrefix(sub, j.S.Config.MCC+j.S.Config.MNC) {
@@ -481,9 +496,17 @@ func checkC16(c *Ctx) {
 		nMulti = 60000
 	}
 	jobs = append(jobs, multiJobs(root.Sub("multi"), nMulti, multiOpts{profile: "c16-multi", viaCreate: true, roamers: true, ownCreds: true}, "ps-multi-c16", "c16-multi")...)
+	// the same context in a second life, possibly with other algorithms: what it advertises must be
+	// what it then uses
+	jobs = append(jobs, reregJobs(root.Sub("rereg"), nMulti/3, "c16-rereg", "ps-rereg-c16", "c16-rereg")...)
 	sh := map[string]bool{}
 	c.Batch(jobs, func(j Job, r *Run, fs []Finding) {
 		cfg := j.S.Config
+		if j.Tag == "c16-rereg" {
+			c.Probes["register-deregister-register-again runs"]++
+			sh[fmt.Sprintf("rereg/%v/%v/%v/%v", j.S.Rig["nea"], j.S.Rig["nia"], j.S.Rig["nea2"], j.S.Rig["nia2"])] = true
+			return
+		}
 		if len(j.S.Subscribers) > 0 {
 			// UE creation for several subscribers (and several credential sets) in one process
 			c.Probes["multi-subscriber-creations"] += len(j.S.Subscribers)
@@ -635,7 +658,50 @@ func checkC18(c *Ctx) {
 		s.Faults = []scn.Fault{{Kind: "dial_fail", Class: "first"}}
 		jobs = append(jobs, Job{S: s, Rig: "ws", Judge: "ws-dial", Tag: "c18-dial-refused-once"})
 	}
+	// malformed credentials: a K / OPc / OP that is not 32 hex digits is not a value the procedures
+	// can receive unchanged. The pinned code stops; padding, truncating or substituting it and
+	// answering the challenge would be "a value other than the configured one reaching a procedure".
+	for i := 0; i < nT/10; i++ {
+		o := GenOpts{Profile: "c18-badcred", Mode: []string{"test", "traffic"}[i%2], MinReg: 1, MaxReg: 2, Latency: "zero", ExplicitUEs: 2}
+		s := Gen(root.Uint64(), o)
+		rb := root.Sub(fmt.Sprint("bad", i))
+		mangle := func(v string) string {
+			switch rb.Intn(6) {
+			case 0:
+				return v[2:] // lost its first octet
+			case 1:
+				return v[:len(v)-2]
+			case 2:
+				return v + "00"
+			case 3:
+				return v[1:] // odd number of digits
+			case 4:
+				return v[:7] + "g" + v[8:]
+			}
+			return v[:2*rb.Range(1, 14)]
+		}
+		full := func(v string) string {
+			if len(v) != 32 {
+				return hexCase(rb, rb.Bytes(16))
+			}
+			return v
+		}
+		switch i % 3 {
+		case 0: // OPc malformed, OP fine
+			s.Config.OPC, s.Config.OP = mangle(full(s.Config.OPC)), full(s.Config.OP)
+		case 1: // OP-only subscription with a malformed OP
+			s.Config.OPC, s.Config.OP = "", mangle(full(s.Config.OP))
+		default: // K malformed
+			s.Config.K = mangle(s.Config.K)
+		}
+		s.Rig = map[string]interface{}{"badcred": true}
+		jobs = append(jobs, Job{S: s, Rig: "ws", Judge: "ws-badcred", Tag: "c18-malformed-credentials"})
+	}
 	c.Batch(jobs, func(j Job, r *Run, fs []Finding) {
+		if j.Tag == "c18-malformed-credentials" {
+			c.Probes["malformed-credential runs"]++
+			return
+		}
 		if len(j.S.Faults) > 0 {
 			c.Probes["first-dial-refused"]++
 			return
